@@ -473,6 +473,37 @@ def native_run(keep, user_dir, n_docs, same_names, fail_last):
     return why, obs
 
 
+def native_aborted(keep, user_dir):
+    """a Cram document whose second test case ends the script: the single-script executor gives up with the captured output"""
+    import os
+    import shutil
+    import subprocess
+    import tempfile
+    from common import SCRUT_BIN
+    root = tempfile.mkdtemp(prefix="verif-c18a-")
+    try:
+        os.mkdir(os.path.join(root, "systmp"))
+        os.mkdir(os.path.join(root, "userwork"))
+        open(os.path.join(root, "doc.t"), "w").write("one\n  $ echo a\n  a\n\ntwo\n  $ exit 0\n\nthree\n  $ echo c\n  c\n")
+        argv = [SCRUT_BIN, "test", "-r", "json", "doc.t"]
+        if keep:
+            argv.append("--keep-temporary-directories")
+        if user_dir:
+            argv += ["--work-directory", os.path.join(root, "userwork")]
+        r = subprocess.run(argv, cwd=root, stdout=subprocess.PIPE, stderr=subprocess.PIPE, text=True, timeout=60,
+                           env=dict(os.environ, TMPDIR=os.path.join(root, "systmp"), NO_COLOR="1"))
+        obs = {"argv": argv[1:], "exit": r.returncode, "left_in_TMPDIR": sorted(os.listdir(os.path.join(root, "systmp"))),
+               "left_in_work_directory": sorted(os.listdir(os.path.join(root, "userwork"))), "stderr_tail": r.stderr[-200:]}
+    finally:
+        shutil.rmtree(root, ignore_errors=True)
+    why = None
+    if not keep and obs["left_in_TMPDIR"]:
+        why = "directories left in $TMPDIR after an aborted script run: %s" % obs["left_in_TMPDIR"]
+    elif user_dir and not keep and obs["left_in_work_directory"]:
+        why = "left inside the given --work-directory after an aborted script run: %s" % obs["left_in_work_directory"]
+    return why, obs
+
+
 def run(pid, tier):
     import random
     import time
@@ -492,6 +523,8 @@ def run(pid, tier):
         left = sorted(p for p, e in L.dirs.items() if e["by"] == "scrut")
         # end-to-end confirmation on the real binary for the configuration of the witness (passing and failing documents)
         why, obs = native_run(keep, user_dir, max(1, len(docs)), same, any(d.kind != "ok" for d in docs))
+        if not why and any(d.kind == "aborted" for d in docs):
+            why, obs = native_aborted(keep, user_dir)
         if not why:
             # nothing on plain passing / failing documents: realise the executor script of the witness (skip, time-out, hard error …)
             verdicts = [bool(z3.is_true(model.eval(v.z(), model_completion=True))) for v in r.ctx.notes.get("validated", [])]
@@ -528,6 +561,13 @@ def run(pid, tier):
                 bad += 1
                 rep.violation("native:keep=%s:workdir=%s" % (keep, user_dir), "`scrut test` (keep=%s, --work-directory=%s, %d document(s), same names=%s): %s"
                               % (keep, user_dir, n_docs, same, why), {"kind": "scrut-test-run", "observation": obs, "harness": "end-to-end sample"})
+    for keep, user_dir in FLAGS:
+        why, obs = native_aborted(keep, user_dir)
+        runs += 1
+        if why:
+            bad += 1
+            rep.violation("native:aborted:keep=%s:workdir=%s" % (keep, user_dir), "`scrut test` on a Cram document whose script ends early (keep=%s, --work-directory=%s): %s"
+                          % (keep, user_dir, why), {"kind": "scrut-test-run", "observation": obs, "harness": "end-to-end sample"})
     rep.subclaims[-1]["concrete_validation"] = {"inputs": runs, "mismatches": bad, "wall_s": round(time.time() - t0, 1),
                                                 "function": "real `scrut test` runs with probe commands; $TMPDIR listed before/after"}
     # SCRUT_TEST=<path>:<line> is set by the executor: decided on the whole-function run of StatefulExecutor::execute_all
